@@ -340,6 +340,15 @@ def run(run, model):
     run.do(select.introspect_rules, model, "C05.introspect")
     run.do(gates.c05_select_mapping, model)
     run.do(gates.c02_result_identity, model, "C05.body-result", "C05.body-args")
+    # the mapping of the call is not changed behind the back of the contracts evaluated later (message generation
+    # hides _ARGS/_KWARGS in a copy), and an error factory gets the call's mapping, not the condition's selection
+    from . import msg, loops
+    run.do(msg.hide_placeholders, model, "C05.mapping-untouched")
+    for role, ck in gates.checkers(model).items():
+        for kind, depth in (("PRE", 2), ("POST", 1)):
+            h = loops.helper_of(model, ck, kind)
+            if h is not None:
+                run.do(loops.verdict_rule, model, "C05.error-mapping", h[0], h[1], h[2], depth)
     run.minimum("C05.pos-table", 5)
     run.minimum("C05.posonly", 9)
     run.minimum("C05.order", 1)
